@@ -669,6 +669,14 @@ OBLIGATIONS.append(_runner(
 OBLIGATIONS[-1]["stubs"] = [x for x in OBLIGATIONS[-1]["stubs"] if not x.startswith("schedule_removal_and_despawn_reactors")] + [
     "schedule_removal_and_despawn_reactors -> stub_poll_schedules_reaction: the first poll applies one reaction for the polled system "
     "through the real runner (nested call), later polls do nothing"]
+OBLIGATIONS.append(_runner(
+    "runner.polls_after_run", "runner_polls_after_the_run", ["C08", "C07", "C10"],
+    "idle or (symbolically) stale target; tree position symbolic in {0, 3}; garbage collection and the removal/despawn poll replaced by marks",
+    "after the system and its cleanup (or an aborted command's cleanup) the runner collects garbage and then polls removals/despawns "
+    "before it returns - so what a run releases, removes or despawns is reacted to within the same tree",
+    witness=[["runner", "poll_same_system"]]))
+OBLIGATIONS[-1]["stubs"] = [x for x in OBLIGATIONS[-1]["stubs"] if not x.startswith(("schedule_removal", "garbage_collect"))] + [
+    "garbage_collect_entities -> mark 31, schedule_removal_and_despawn_reactors -> mark 32 (only their POSITION in the runner is the subject)"]
 OBLIGATIONS.append(_runner("runner.witness", "runner_step_witness", ["C02", "C09", "C11"], "-", "vacuity twin of the runner step family",
                            expect="fail"))
 
@@ -752,7 +760,7 @@ _QUICK_ONLY_FOR = {
     "desp.witness": ["C12"], "ent.witness": ["C12"], "bundle.reactor_types": ["C06", "C16"],
     "rc.broadcast_0_2": ["C01", "C05"], "rc.broadcast_2_1": ["C01", "C05", "C03"],
     # runner steps / command application / setup-cleanup pairs (measured 25-150 s each)
-    "runner.replay_1_nested": ["C09"], "runner.replay_2_root": ["C02", "C11", "C05"], "runner.replay_3_root": ["C12"], "runner.poll_reaction": ["C08"],
+    "runner.replay_1_nested": ["C09"], "runner.replay_2_root": ["C02", "C11", "C05"], "runner.replay_3_root": ["C12"], "runner.poll_reaction": ["C08"], "runner.polls_after_run": ["C08", "C07"],
     "runner.missing_root": ["C02", "C18"], "runner.entity_without_system": ["C11", "C05"],
     "runner.busy_nested": ["C02", "C09", "C12"], "runner.plain_run": ["C02", "C13", "C04", "C09"], "runner.witness": ["C02", "C09"],
     "cmd.apply_system_command": ["C02"], "cmd.apply_event_command": ["C05", "C12"], "cmd.apply_reaction_resource": ["C02"],
